@@ -48,12 +48,18 @@ Uncertain(res) == res[1] \in {"error", "closed", "timeout", "malformed"}
 Explaining(A, r, res) == {w \in A : Class(EApply(w, now, r)[2]) = res}
 After1(A, r) == {View(EApply(w, now, r)[1], now) : w \in A}
 
+\* after a backend fault a read may also come back empty (C10: "the correct value or a miss")
+MissOK(r, res) == faulted /\ r.m \in {"get", "gat"} /\ res = <<"miss">>
+
 \* new admissible set for one key after request r was answered with res
 Narrow(A, r, res) ==
   IF Uncertain(res) THEN A \cup After1(A, r) \cup {None}
+  ELSE IF MissOK(r, res) /\ Explaining(A, r, res) = {} THEN A
+  \* after a fault the tiers may disagree about an unacknowledged write: a read does not settle it
+  ELSE IF faulted /\ IsRead(r) /\ Explaining(A, r, res) # {} THEN A
   ELSE LET S == Explaining(A, r, res) IN IF S = {} THEN After1(A, r) ELSE After1(S, r)
 
-ReplyBad(A, r, res) == ~Uncertain(res) /\ Explaining(A, r, res) = {}
+ReplyBad(A, r, res) == ~Uncertain(res) /\ ~MissOK(r, res) /\ Explaining(A, r, res) = {}
 
 \* a multi-key get: the keys are looked up one after the other
 RECURSIVE MGetBad(_, _, _)
@@ -104,7 +110,7 @@ Op ==
   /\ Ev.ev = "op"
   /\ LET x == Ev.x  res == Ev.res IN
      IF x.op = "mget"
-     THEN LET bad == MGetBad(adm, x.ks, res[2]) IN
+     THEN LET bad == IF Uncertain(res) THEN {} ELSE MGetBad(adm, x.ks, res[2]) IN
           /\ \A k \in bad : Report("ReplyOK", k, Expected(adm[k], Req("get", k, <<>>, 0, 0)), res)
           /\ TierChecks(adm, now, faulted)
           /\ adm' = Resync(adm, now, faulted)
@@ -118,6 +124,13 @@ Op ==
           /\ adm' = Resync(a2, now, f2)
           /\ faulted' = f2
           /\ UNCHANGED <<now, twotier>>
+
+\* the tiers were pre-loaded by the harness: the reference starts as the authoritative tier
+InitEv ==
+  /\ Ev.ev = "init"
+  /\ LET o1 == Obs(Ev.l1)  o2 == Obs(Ev.l2)  auth == IF twotier THEN o2 ELSE o1 IN
+     adm' = [k \in Keys |-> {View(auth[k], now)}]
+  /\ UNCHANGED <<now, faulted, twotier>>
 
 Evict ==
   /\ Ev.ev = "evict"
@@ -138,7 +151,7 @@ FaultEv ==
   /\ faulted' = TRUE
   /\ UNCHANGED <<adm, now, twotier>>
 
-Next == l <= Len(Trace) /\ l' = l + 1 /\ (Reset \/ Op \/ Evict \/ Tick \/ FaultEv)
+Next == l <= Len(Trace) /\ l' = l + 1 /\ (Reset \/ InitEv \/ Op \/ Evict \/ Tick \/ FaultEv)
 
 Spec == Init /\ [][Next]_vars
 
